@@ -1,0 +1,52 @@
+//go:build verif
+
+package parser
+
+// This file is only compiled with the "verif" build tag.
+// It exposes internals to the verification harness and changes no behaviour.
+
+// VerifError is one leaf of an error returned by [Parse].
+type VerifError struct {
+	Start, End int
+	// HasPos is false for errors that carry no source position.
+	HasPos bool
+	// NotFound reports whether isNotFound would see this leaf.
+	NotFound bool
+}
+
+// VerifErrors flattens an error returned by [Parse] into its leaves, in order.
+func VerifErrors(err error) []VerifError {
+	var out []VerifError
+	var visit func(err error, opaque bool)
+	visit = func(err error, opaque bool) {
+		switch e := err.(type) {
+		case nil:
+		case *parseError:
+			out = append(out, VerifError{
+				Start:    e.span.Start,
+				End:      e.span.End,
+				HasPos:   true,
+				NotFound: !opaque && isNotFound(e),
+			})
+		case opaqueError:
+			visit(e.error, true)
+		case multiUnwrapper:
+			for _, x := range e.Unwrap() {
+				visit(x, opaque)
+			}
+		default:
+			if u, ok := err.(interface{ Unwrap() error }); ok && u.Unwrap() != nil {
+				visit(u.Unwrap(), opaque)
+				return
+			}
+			out = append(out, VerifError{Start: -1, End: -1, NotFound: !opaque && isNotFound(err)})
+		}
+	}
+	visit(err, false)
+	return out
+}
+
+// VerifLinecol exposes linecol.
+func VerifLinecol(source string, pos int) (line, col int) {
+	return linecol(source, pos)
+}
